@@ -3,6 +3,8 @@
 package client
 
 import (
+	"strconv"
+
 	"github.com/aws/aws-sdk-go-v2/aws"
 	"github.com/aws/aws-sdk-go-v2/service/dynamodb"
 	"github.com/aws/aws-sdk-go-v2/service/dynamodb/types"
@@ -98,5 +100,44 @@ func VerifC13API() {
 		nd.Reach("key-update-rejected")
 		nd.Assert(vSameItems(before, vScanAll(c)), "C13-rejected-key-update-changes-nothing")
 	}
+	nd.Reach("end")
+}
+
+// VerifC13NumericKeys: a number-typed key of any magnitude and notation identifies its item before and
+// after updates: the stored key attribute keeps the value the item is found under (an update must not
+// rewrite it), and the same number in another notation addresses the same item.
+func VerifC13NumericKeys() {
+	c := NewClient()
+	in := generateAddTableInput(vTbl, "p", "")
+	in.AttributeDefinitions[0].AttributeType = types.ScalarAttributeTypeN
+	_, err := c.CreateTable(vCtx, in)
+	nd.Assert(err == nil, "setup-createtable")
+	groups := [][]string{{"1e19", "10000000000000000000"}, {"-1e30", "-1000000000000000000000000000000"}, {"9223372036854775808", "9.223372036854775808e18"},
+		{"0.5", "5e-1"}, {"-7", "-7.0"}, {"1e-10", "0.0000000001"}}
+	g := groups[nd.Choice("number", len(groups))]
+	w := nd.Choice("written-as", 2)
+	nd.Assert(vPut(c, vItem{"p": vN(g[w]), "v": vS("x")}) == nil, "C13-numeric-put-noerr")
+	sameNumber := func(av types.AttributeValue) bool {
+		n, ok := av.(*types.AttributeValueMemberN)
+		if !ok {
+			return false
+		}
+		got, e1 := strconv.ParseFloat(n.Value, 64)
+		want, e2 := strconv.ParseFloat(g[0], 64)
+		return e1 == nil && e2 == nil && got == want
+	}
+	for round := 0; round < 2; round++ {
+		got, gerr := vGet(c, vItem{"p": vN(g[1-w])})
+		nd.Assert(gerr == nil && len(got) > 0, "C13-numeric-key-found-under-the-other-notation")
+		if len(got) > 0 {
+			nd.Assert(sameNumber(got["p"]), "C13-stored-key-attribute-keeps-its-value")
+		}
+		// an update of another attribute
+		_, uerr := c.UpdateItem(vCtx, &dynamodb.UpdateItemInput{TableName: aws.String(vTbl), Key: vItem{"p": vN(g[w])},
+			UpdateExpression: aws.String("SET v = :x"), ExpressionAttributeValues: vItem{":x": vS("y")}})
+		nd.Assert(uerr == nil, "C13-numeric-update-noerr")
+	}
+	all := vScanAll(c)
+	nd.Assert(len(all) == 1 && sameNumber(all[0]["p"]), "C13-one-item-whose-key-attribute-is-the-key")
 	nd.Reach("end")
 }
